@@ -36,15 +36,16 @@ TABLE = [
     (("C12", "C01"), "Cell.__init__", ("self", "_initialize"), "solver structures are built for the assembled module"),
     (("C12", "C01"), "Network.__init__", ("self", "_initialize"), "solver structures are built for the assembled module"),
     (("C12", "C01"), "Compartment.__init__", ("self", "_initialize"), "solver structures are built"),
-    (("C01",), "Module._initialize", ("self", "_init_morph"), "solver structures"),
-    (("C01",), "Module._init_morph", ("self", "_init_morph_jaxley_spsolve"), "structures of the custom solver"),
-    (("C01",), "Module._init_morph", ("self", "_init_morph_jax_spsolve"), "structures of the generic sparse solver"),
+    (("C01", "C13"), "Module._initialize", ("self", "_init_morph"), "solver structures (re-run by set_ncomp)"),
+    (("C01", "C13"), "Module._init_morph", ("self", "_init_morph_jaxley_spsolve"), "structures of the custom solver"),
+    (("C01", "C13"), "Module._init_morph", ("self", "_init_morph_jax_spsolve"), "structures of the generic sparse solver"),
     (("C01",), "step_voltage_implicit_with_jaxley_spsolve", (ANY, "_triang_branched"), "elimination phase"),
     (("C01",), "step_voltage_implicit_with_jaxley_spsolve", (ANY, "_backsub_branched"), "back-substitution phase"),
     (("C01", "C02"), "step_voltage_implicit_with_jaxley_spsolve", (ANY, "group_and_sum"), "weights meeting at a branch point are summed"),
     (("C01",), "step_voltage_explicit", (ANY, "_voltage_vectorfield"), "forward Euler uses the vector field"),
-    (("C01",), "Cell._init_morph_jaxley_spsolve", (ANY, "compute_levels"), "levels of the branch tree"),
-    (("C01",), "Cell._init_morph_jaxley_spsolve", (ANY, "remap_index_to_masked"), "padding map of unequal branches"),
+    (("C01", "C13"), "Cell._init_morph_jaxley_spsolve", (ANY, "compute_levels"), "levels of the branch tree"),
+    (("C01", "C13"), "Cell._init_morph_jaxley_spsolve", (ANY, "remap_index_to_masked"), "padding map of unequal branches: rebuilt on EVERY re-initialisation (set_ncomp changes the map even when the padded widths stay)"),
+    (("C01", "C13"), "Cell._init_morph_jaxley_spsolve", (ANY, "JaxleySolveIndexer"), "the solve indexer is rebuilt on every re-initialisation"),
     (("C01", "C12"), "Network._init_morph_jaxley_spsolve", (ANY, "merge_cells"), "per-cell level tables are merged"),
     (("C01", "C12", "C02"), "Network._init_morph_jaxley_spsolve", (ANY, "remap_index_to_masked"), "padding map of unequal branches: the network's padded layout differs from the cells' own"),
     # --- re-discretisation (C13, C19)
@@ -87,4 +88,18 @@ TABLE = [
     (("C16",), "_split_long_branches", (ANY, "_compute_pathlengths"), "lengths decide the splitting"),
     # --- connectivity (C20)
     (("C20", "C09"), "connect", (ANY, "is_same_network"), "pre and post must belong to one network"),
+]
+
+
+# Stores that re-establish an invariant and must be executed on EVERY normal path of the function (no condition): the
+# (re-)initialisers are called again by set_ncomp / View creation on objects that already carry the old values.
+# (properties, function, kind, name, reason); kind: "attr" = self.<name> = ..., "column" = self.nodes[<name>] = ...
+MUST_STORE = [
+    (("C13", "C19", "C10", "C11"), "Module._init_view", "column", "controlled_by_param",
+     "the parameter-sharing column is reset: rows created by set_ncomp are copies of rows of a view, whose value is the view's"),
+    (("C13", "C19", "C11"), "Module._init_view", "attr", "_nodes_in_view", "the module's own view lists all (renumbered) rows"),
+    (("C13", "C19", "C11"), "Module._init_view", "attr", "_edges_in_view", "the module's own view lists all edges"),
+    (("C13", "C11"), "Module._init_view", "attr", "_current_view", "level of the module"),
+    (("C10", "C14", "C13"), "Module.to_jax", "attr", "jaxnodes", "rebuilt from the current node table"),
+    (("C10", "C14", "C09"), "Module.to_jax", "attr", "jaxedges", "rebuilt from the current edge table"),
 ]
